@@ -123,21 +123,57 @@ class CFG:
     def nodes(self):
         return list(self.succ)
 
-    def reachable(self, src, avoid=(), forward=True):
-        """Set of nodes reachable from src (src excluded unless on a cycle)."""
+    def reachable(self, src, avoid=(), forward=True, skip_edge=None):
+        """Set of nodes reachable from src (src excluded unless on a cycle).
+        `skip_edge(a, b, label)` may rule out edges (correlated branches)."""
         avoid = set(avoid)
         seen = set()
         adj = self.succ if forward else self.pred
-        stack = [n for n in adj.get(src, ()) if n not in avoid]
+
+        def nexts(n):
+            for m in adj.get(n, ()):
+                if m in avoid:
+                    continue
+                if skip_edge is not None:
+                    e = (n, m) if forward else (m, n)
+                    if skip_edge(e[0], e[1], self.label.get(e)):
+                        continue
+                yield m
+        stack = list(nexts(src))
         while stack:
             n = stack.pop()
             if n in seen:
                 continue
             seen.add(n)
-            for m in adj.get(n, ()):
-                if m not in avoid and m not in seen:
+            for m in nexts(n):
+                if m not in seen:
                     stack.append(m)
         return seen
+
+    def same_branch_filter(self, func, stmt):
+        """Edge filter assuming every `if` whose test is textually equal to
+        a guard of `stmt` (over never-assigned names) takes the same branch
+        as it does on the way to `stmt` (correlated conditions)."""
+        fixed = {}
+        assigned = set()
+        for n in own_nodes(func):
+            if isinstance(n, ast.Name) and isinstance(n.ctx, (ast.Store, ast.Del)):
+                assigned.add(n.id)
+        for t, pol in guards(stmt):
+            names = {x.id for x in ast.walk(t) if isinstance(x, ast.Name)}
+            if names & assigned:
+                continue
+            if any(isinstance(x, ast.Call) for x in ast.walk(t)):
+                continue
+            fixed[text(t)] = pol
+
+        def skip(a, b, label):
+            if isinstance(a, ast.If) and label in ("true", "false"):
+                want = fixed.get(text(a.test))
+                if want is not None and (label == "true") != want:
+                    return True
+            return False
+        return skip
 
     def can_reach(self, a, b, avoid=()):
         return b in self.reachable(a, avoid)
